@@ -413,6 +413,7 @@ func callBuiltin(caller *frame, callpos token.Pos, fn *ssa.Builtin, args []value
 		return mkI(n)
 
 	case "close":
+		E.preemptPoint(caller.g, "close(chan)")
 		E.chanClose(args[0].(*Chan))
 		return nil
 
@@ -449,6 +450,7 @@ func callBuiltin(caller *frame, callpos token.Pos, fn *ssa.Builtin, args []value
 			if x == nil {
 				return mkI(0)
 			}
+			E.preemptPoint(caller.g, "len(chan)")
 			return mkI(len(x.buf))
 		}
 		panic(fmt.Sprintf("len: illegal operand: %T", args[0]))
